@@ -124,3 +124,385 @@ def _succ(R):
     for a, b in R:
         d.setdefault(a, set()).add(b)
     return d
+
+
+# ----------------------------------------------------------------------------
+# C19: fresh set of the structure's own states, heterogeneous states/labels
+
+def check_fresh_case(case):
+    """case = (logic, kdata, [trees]) where states/labels may be of any
+    hashable type"""
+    logic, kdata, ts = case
+    L = lang(logic)
+    fails = []
+    keys = set()
+    K = gen.mk_kripke(kdata)
+    SK = sem.SpecK.of(K)
+    has_none = None in SK.states
+    for t in ts:
+        atoms = trees.atoms_of(t)
+        collision = any(a.startswith('[') for a in atoms)
+        attrs = {'logic': logic, 'none_state': has_none, 'fresh_atom_collision': collision}
+
+        def bad(kind, what):
+            fails.append((kind, '%s: %s.modelcheck(Kripke(S=%r,R=%r,L=%r), %s)' % (what, logic, kdata[0], kdata[1], kdata[2], t),
+                          dict(attrs), (logic, kdata, [t])))
+        f = trees.build(L, t)
+        snap = deep_snapshot(K)
+        r = call(L.modelcheck, K, f)
+        keys.add((logic, repr(kdata), t))
+        if r[0] != 'ok':
+            bad('modelcheck:raises:internal', 'raised %s (%s)' % (r[1], r[2]))
+            continue
+        got = r[1]
+        if type(got) is not set:
+            bad('modelcheck:ensures:is_set', 'returned a %s' % type(got).__name__)
+            continue
+        if not got <= set(SK.states):
+            bad('modelcheck:ensures:subset_of_states', 'returned non-states %r' % (got - set(SK.states),))
+        exp = set(sem.sat(SK, t))
+        if got != exp:
+            bad('modelcheck:ensures:exact', 'returned %r, the semantics gives %r' % (got, exp))
+        internal = set(id(x) for x in K._next.values()) | set(id(x) for x in K._labels.values()) | {id(K.S0)}
+        if id(got) in internal:
+            bad('modelcheck:fresh:aliases_structure', 'the returned set is an internal set of the structure')
+        first = set(got)
+        got.add('#junk')
+        got.discard(next(iter(SK.states)))
+        r2 = call(L.modelcheck, K, f)
+        if r2[0] != 'ok' or r2[1] != first:
+            bad('modelcheck:fresh:owned_by_caller', 'after mutating the first result the second call gives %r, first was %r' % (r2[1:], first))
+        elif r2[1] is got:
+            bad('modelcheck:fresh:owned_by_caller', 'the same set object is returned twice')
+        if deep_snapshot(K) != snap:
+            bad('modelcheck:frame:kripke', 'the Kripke structure was modified')
+            K = gen.mk_kripke(kdata)
+    return {'fails': fails, 'n': len(ts), 'keys': keys}
+
+
+# ----------------------------------------------------------------------------
+# C07: purity over histories
+
+def _global_state():
+    """module/class level mutable state of the package that a modelcheck call
+    could touch"""
+    import pyModelChecking.language as BL
+    out = {}
+    for name in ('PL', 'CTL', 'LTL', 'CTLS'):
+        L = lang(name)
+        out[name + '.alphabet'] = tuple(sorted((k, id(v)) for k, v in L.alphabet.items()))
+        out[name + '.symbols'] = tuple(L.symbols)
+        out[name + '.Parser.grammar'] = L.Parser.grammar
+        for mname in ('model_checking',):
+            m = getattr(L, mname, None)
+        import sys as _sys
+        m = _sys.modules.get('pyModelChecking.%s.model_checking' % name)
+        if m is not None:
+            out[name + '.mc.globals'] = tuple(sorted((k, id(v), repr(v) if isinstance(v, (dict, list, set)) else '')
+                                                     for k, v in vars(m).items() if not k.startswith('__')))
+    out['Bool.symbols'] = tuple(sorted(BL.Bool.symbols.items()))
+    return out
+
+
+def check_purity_case(case):
+    """case = (seed, n_calls): a pool of structures / formulas / fairness
+    arguments; every (K, f, F, text?) query is evaluated once, then a random
+    interleaving of n_calls queries must return equal sets each time, and every
+    structure / formula object / F argument must be unchanged throughout."""
+    import random
+    seed, n_calls = case
+    rng = random.Random(seed)
+    fails = []
+    Ks = []
+    for _ in range(4):
+        kd = gen.random_kripke_data(rng, 4)
+        Ks.append((kd, gen.mk_kripke(kd)))
+    queries = []
+    ctlf = [gen.random_tree(rng, gen.ctl_ops(), 3) for _ in range(5)]
+    ltlf = []
+    while len(ltlf) < 3:
+        g = gen.random_tree(rng, gen.path_ops(), 3)
+        if gen.count_temporal(g) <= 3:
+            ltlf.append(('A', g))
+    ctlsf = gen.ctls_state_formulas(rng, 3, 3, 2)
+    for logic, ts in (('CTL', ctlf), ('LTL', ltlf), ('CTLS', ctlsf)):
+        L = lang(logic)
+        for t in ts:
+            for ki in range(len(Ks)):
+                if rng.random() < 0.6:
+                    continue
+                S = Ks[ki][0][0]
+                Fs = [None]
+                if logic != 'LTL':
+                    Fs.append([set(s for s in S if rng.random() < 0.5)])
+                for F in Fs:
+                    as_text = rng.random() < 0.3
+                    arg = trees.to_text(t) if as_text else trees.build(L, t)
+                    queries.append({'logic': logic, 't': t, 'ki': ki, 'F': F, 'arg': arg,
+                                    'Fcopy': copy.deepcopy(F), 'first': None})
+    snaps = [deep_snapshot(K) for _, K in Ks]
+    g0 = _global_state()
+
+    def describe(q):
+        kd = Ks[q['ki']][0]
+        return '%s.modelcheck(Kripke(S=%r,R=%r,L=%r), %s%s, F=%r)' % (q['logic'], kd[0], kd[1], kd[2], trees.to_text(q['t']),
+                                                                     ' [text]' if isinstance(q['arg'], str) else '', q['Fcopy'])
+
+    def run(q):
+        L = lang(q['logic'])
+        K = Ks[q['ki']][1]
+        r = call(L.modelcheck, K, q['arg'], F=q['F']) if q['F'] is not None else call(L.modelcheck, K, q['arg'])
+        attrs = {'logic': q['logic'], 'fair': q['F'] is not None}
+        if deep_snapshot(K) != snaps[q['ki']]:
+            fails.append(('purity:frame:kripke', 'the Kripke structure was modified by ' + describe(q), attrs))
+            snaps[q['ki']] = deep_snapshot(K)
+        if not isinstance(q['arg'], str) and trees.tree(q['arg']) != q['t']:
+            fails.append(('purity:frame:formula', 'the formula object was modified by ' + describe(q), attrs))
+        if q['F'] != q['Fcopy']:
+            fails.append(('purity:frame:F', 'the fairness argument was modified by ' + describe(q), attrs))
+        return r, attrs
+    order = list(range(len(queries)))
+    for i in order:
+        queries[i]['first'], _ = run(queries[i])
+    for _ in range(n_calls):
+        q = rng.choice(queries)
+        r, attrs = run(q)
+        a, b = q['first'], r
+        same = (a[0] == b[0]) and (a[1] == b[1] if a[0] == 'ok' else a[1] == b[1])
+        if not same:
+            fails.append(('purity:repeatable', 'repeating %s gave %r, the first call gave %r' % (describe(q), b[:2], a[:2]), attrs))
+            break
+    if _global_state() != g0:
+        fails.append(('purity:frame:globals', 'module/class level state of the package changed (seed %d)' % seed, {}))
+    return {'fails': [f + ((seed, n_calls),) if len(f) == 3 else f for f in fails], 'n': len(queries) + n_calls,
+            'keys': set((seed, i) for i in range(len(queries)))}
+
+
+# ----------------------------------------------------------------------------
+# C06: presentation independence
+
+def _rename_tree(t, amap):
+    if t[0] == 'ap':
+        return ('ap', amap.get(t[1], t[1]))
+    if t[0] in ('true', 'false'):
+        return t
+    return (t[0],) + tuple(_rename_tree(c, amap) for c in t[1:])
+
+
+def check_presentation_case(case):
+    """case = (logic, kdata, [trees], seed): state bijections (to strings /
+    tuples), reordered S/R/L collections, consistent atom renaming, added
+    unreachable states"""
+    import random
+    logic, kdata, ts, seed = case
+    rng = random.Random(seed)
+    L = lang(logic)
+    S, R, Lab = kdata
+    fails = []
+    keys = set()
+    K0 = gen.mk_kripke(kdata)
+    # variants: (name, kdata', state map, atom map, restrict-to-original)
+    variants = []
+    for name, mk in (('to-strings', lambda s: 'st%r' % (s,)), ('to-tuples', lambda s: (s, 'x')),
+                     ('to-mixed', lambda s: [('a', s), 'b%r' % (s,), -7 - s][s % 3] if isinstance(s, int) else (s,))):
+        m = {s: mk(s) for s in S}
+        variants.append((name, ([m[s] for s in S], [(m[a], m[b]) for a, b in R], {m[s]: list(l) for s, l in Lab.items()}), m, {}, None))
+    perm = list(S)
+    rng.shuffle(perm)
+    m = dict(zip(S, perm))
+    variants.append(('permute-states', ([m[s] for s in S], [(m[a], m[b]) for a, b in R], {m[s]: list(l) for s, l in Lab.items()}), m, {}, None))
+    S2, R2 = list(S), list(R)
+    rng.shuffle(S2)
+    rng.shuffle(R2)
+    L2 = {}
+    for s in reversed(list(Lab.keys())):
+        l = list(Lab[s])
+        rng.shuffle(l)
+        L2[s] = l
+    ident = {s: s for s in S}
+    variants.append(('reorder-collections', (S2, R2, L2), ident, {}, None))
+    variants.append(('reorder-reversed', (list(reversed(S)), list(reversed(R)), dict(reversed(list(Lab.items())))), ident, {}, None))
+    amap = {'p': 'q', 'q': 'p'} if rng.random() < 0.5 else {'p': 'alpha', 'q': 'Beta_2'}
+    variants.append(('rename-atoms', (list(S), list(R), {s: [amap.get(a, a) for a in l] for s, l in Lab.items()}), ident, amap, None))
+    extra = ['u1', 'u2']
+    Rx = list(R) + [('u1', 'u2'), ('u2', 'u1'), ('u2', 'u2')] + ([('u1', S[0])] if rng.random() < 0.5 else [])
+    Lx = dict((s, list(l)) for s, l in Lab.items())
+    Lx['u1'] = ['p']
+    Lx['u2'] = ['q', 'p']
+    variants.append(('add-unreachable', (list(S) + extra, Rx, Lx), ident, {}, set(S)))
+    for t in ts:
+        f0 = trees.build(L, t)
+        base = call(L.modelcheck, K0, f0)
+        if base[0] != 'ok':
+            continue        # C19/C01.. own internal errors
+        keys.add((logic, repr(kdata), t))
+        for name, kd2, smap, am, restrict in variants:
+            K2 = gen.mk_kripke(kd2)
+            t2 = _rename_tree(t, am)
+            r = call(L.modelcheck, K2, trees.build(L, t2))
+            exp = set(smap[s] for s in base[1])
+            got = r[1] if r[0] == 'ok' else None
+            if got is not None and restrict is not None:
+                got = set(s for s in got if s in restrict)
+            if r[0] != 'ok' or got != exp:
+                fails.append(('presentation:' + name,
+                              '%s changes the answer of %s.modelcheck(Kripke(S=%r,R=%r,L=%r), %s): %r instead of %r (variant structure S=%r,R=%r,L=%r)'
+                              % (name, logic, S, R, Lab, trees.to_text(t), r[1:] if r[0] != 'ok' else got, exp, kd2[0], kd2[1], kd2[2]),
+                              {'logic': logic, 'variant': name}, (logic, kdata, [t], seed)))
+    return {'fails': fails, 'n': len(ts) * len(variants), 'keys': keys}
+
+
+def battery(seed, n):
+    """deterministic list of (logic, kdata, tree) used for the hash-seed runs"""
+    import random
+    rng = random.Random(seed)
+    out = []
+    ctl = [gen.random_tree(rng, gen.ctl_ops(), 3) for _ in range(n)]
+    pth = []
+    while len(pth) < n:
+        g = gen.random_tree(rng, gen.path_ops(), 3)
+        if gen.count_temporal(g) <= 3:
+            pth.append(g)
+    ctls = gen.ctls_state_formulas(rng, n, 3, 2)
+    for i in range(n):
+        kd = gen.random_kripke_data(rng, 4)
+        kd = (kd[0], kd[1], {s: sorted(l) for s, l in kd[2].items()})
+        # string states so that set iteration order really depends on the hash seed
+        m = {s: 'state_%d' % s for s in kd[0]}
+        kd = ([m[s] for s in kd[0]], [(m[a], m[b]) for a, b in kd[1]], {m[s]: l for s, l in kd[2].items()})
+        out.append(('CTL', kd, ctl[i]))
+        out.append(('LTL', kd, ('A', pth[i])))
+        out.append(('CTLS', kd, ctls[i]))
+    return out
+
+
+def battery_answers(seed, n):
+    res = []
+    for logic, kd, t in battery(seed, n):
+        L = lang(logic)
+        r = call(L.modelcheck, gen.mk_kripke(kd), trees.build(L, t))
+        res.append(sorted(r[1]) if r[0] == 'ok' else ['raise', r[1]])
+    return res
+
+
+def check_hashseed_case(case):
+    """case = (battery seed, n, hash seed): run the battery in a fresh
+    interpreter under PYTHONHASHSEED and compare with this process's answers"""
+    import json
+    import os
+    import subprocess
+    import sys as _sys
+    bseed, n, hseed = case
+    env = dict(os.environ)
+    env['PYTHONHASHSEED'] = str(hseed)
+    code = ("import json,sys\nfrom vf.rtc.mc_rtc import battery_answers\n"
+            "print(json.dumps(battery_answers(%d,%d)))\n" % (bseed, n))
+    p = subprocess.run([_sys.executable, '-W', 'ignore', '-c', code], env=env, capture_output=True, text=True, timeout=1200)
+    if p.returncode != 0:
+        raise RuntimeError('hash-seed subprocess failed: ' + p.stderr[-400:])
+    theirs = json.loads(p.stdout.strip().splitlines()[-1])
+    mine = json.loads(json.dumps(battery_answers(bseed, n)))
+    fails = []
+    items = battery(bseed, n)
+    keys = set()
+    for i, (a, b) in enumerate(zip(mine, theirs)):
+        keys.add((bseed, i, hseed))
+        if a != b:
+            logic, kd, t = items[i]
+            fails.append(('presentation:hash-seed', 'PYTHONHASHSEED=%d gives %r, PYTHONHASHSEED=%s gives %r for %s.modelcheck(Kripke(S=%r,R=%r,L=%r), %s)'
+                          % (hseed, b, os.environ.get('PYTHONHASHSEED'), a, logic, kd[0], kd[1], kd[2], trees.to_text(t)),
+                          {'logic': logic, 'variant': 'hash-seed'}))
+    return {'fails': fails, 'n': len(mine), 'keys': keys}
+
+
+# ----------------------------------------------------------------------------
+# C04: agreement of the three checkers and semantic laws (no reference oracle)
+
+def _mc(logic, K, t, as_text=False):
+    L = lang(logic)
+    arg = trees.to_text(t) if as_text else trees.build(L, t)
+    return call(L.modelcheck, K, arg)
+
+
+def check_laws_case(case):
+    """case = (kdata, ctl state formulas, propositional-operand path formulas,
+    ltl path formulas)"""
+    kdata, ctl_fs, shared, ltl_gs = case
+    fails = []
+    keys = set()
+    K = gen.mk_kripke(kdata)
+    S = set(K.states())
+
+    def bad(kind, what, rep):
+        fails.append((kind, '%s on Kripke(S=%r,R=%r,L=%r)' % (what, kdata[0], kdata[1], kdata[2]), {'law': kind}, rep))
+
+    def val(logic, t, as_text=False):
+        r = _mc(logic, K, t, as_text)
+        return set(r[1]) if r[0] == 'ok' else ('raise', r[1])
+    # agreement of entry points
+    for g in shared:                      # A g in CTL, LTL and CTL*
+        t = ('A', g)
+        keys.add(('shared', repr(kdata), t))
+        a, b, c = val('CTL', t), val('LTL', t), val('CTLS', t)
+        if not (a == b == c):
+            bad('agree:CTL-LTL-CTLS', 'CTL/LTL/CTLS.modelcheck give %r / %r / %r for %s' % (a, b, c, trees.to_text(t)), (kdata, [], [g], []))
+        for logic in ('CTL', 'LTL', 'CTLS'):
+            if val(logic, t, True) != val(logic, t):
+                bad('agree:text-object', '%s.modelcheck differs between text %r and object' % (logic, trees.to_text(t)), (kdata, [], [g], []))
+    for f in ctl_fs:                      # every CTL formula is a CTL* formula
+        keys.add(('ctl', repr(kdata), f))
+        a, c = val('CTL', f), val('CTLS', f)
+        if a != c:
+            bad('agree:CTL-CTLS', 'CTL/CTLS.modelcheck give %r / %r for %s' % (a, c, trees.to_text(f)), (kdata, [f], [], []))
+        if val('CTL', f, True) != a:
+            bad('agree:text-object', 'CTL.modelcheck differs between text %r and object' % (trees.to_text(f),), (kdata, [f], [], []))
+    for g in ltl_gs:                      # every LTL formula is a CTL* formula
+        t = ('A', g)
+        keys.add(('ltl', repr(kdata), t))
+        b, c = val('LTL', t), val('CTLS', t)
+        if b != c:
+            bad('agree:LTL-CTLS', 'LTL/CTLS.modelcheck give %r / %r for %s' % (b, c, trees.to_text(t)), (kdata, [], [], [g]))
+        # A g == not E not g  (CTL*)
+        d = val('CTLS', ('not', ('E', ('not', g))))
+        if c != d:
+            bad('law:A=notEnot', 'A g gives %r, not E not g gives %r for g=%s' % (c, d, trees.to_text(g)), (kdata, [], [], [g]))
+    # Boolean laws and expansion laws, for CTL and CTL* entry points
+    for logic in ('CTL', 'CTLS'):
+        fs = ctl_fs
+        for i, f in enumerate(fs):
+            vf = val(logic, f)
+            if isinstance(vf, tuple):
+                continue
+            if val(logic, ('not', f)) != S - vf:
+                bad('law:not', '%s: not f is not the complement for f=%s' % (logic, trees.to_text(f)), (kdata, [f], [], []))
+            g = fs[(i * 7 + 3) % len(fs)]
+            vg = val(logic, g)
+            if isinstance(vg, tuple):
+                continue
+            rep = (kdata, [f, g], [], [])
+            if val(logic, ('and', f, g)) != vf & vg:
+                bad('law:and', '%s: (f and g) is not the intersection for f=%s g=%s' % (logic, trees.to_text(f), trees.to_text(g)), rep)
+            if val(logic, ('or', f, g)) != vf | vg:
+                bad('law:or', '%s: (f or g) is not the union for f=%s g=%s' % (logic, trees.to_text(f), trees.to_text(g)), rep)
+            if val(logic, ('imply', f, g)) != (S - vf) | vg:
+                bad('law:imply', '%s: (f --> g) is not complement-union for f=%s g=%s' % (logic, trees.to_text(f), trees.to_text(g)), rep)
+            # duals and expansions
+            pairs = [
+                ('law:AX=notEXnot', ('A', ('X', f)), ('not', ('E', ('X', ('not', f))))),
+                ('law:AG=notEFnot', ('A', ('G', f)), ('not', ('E', ('F', ('not', f))))),
+                ('law:AF=notEGnot', ('A', ('F', f)), ('not', ('E', ('G', ('not', f))))),
+                ('law:AR=notEUnot', ('A', ('R', f, g)), ('not', ('E', ('U', ('not', f), ('not', g))))),
+                ('law:AU=notERnot', ('A', ('U', f, g)), ('not', ('E', ('R', ('not', f), ('not', g))))),
+                ('law:EU-expansion', ('E', ('U', f, g)), ('or', g, ('and', f, ('E', ('X', ('E', ('U', f, g))))))),
+                ('law:AU-expansion', ('A', ('U', f, g)), ('or', g, ('and', f, ('A', ('X', ('A', ('U', f, g))))))),
+                ('law:AG-expansion', ('A', ('G', f)), ('and', f, ('A', ('X', ('A', ('G', f)))))),
+                ('law:EG-expansion', ('E', ('G', f)), ('and', f, ('E', ('X', ('E', ('G', f)))))),
+                ('law:EF-expansion', ('E', ('F', f)), ('or', f, ('E', ('X', ('E', ('F', f)))))),
+                ('law:AF-expansion', ('A', ('F', f)), ('or', f, ('A', ('X', ('A', ('F', f)))))),
+                ('law:ER-expansion', ('E', ('R', f, g)), ('and', g, ('or', f, ('E', ('X', ('E', ('R', f, g))))))),
+            ]
+            for name, lhs, rhs in pairs:
+                a, b = val(logic, lhs), val(logic, rhs)
+                if a != b:
+                    bad(name, '%s: %s gives %r but %s gives %r' % (logic, trees.to_text(lhs), a, trees.to_text(rhs), b), rep)
+    return {'fails': fails, 'n': len(shared) * 6 + len(ctl_fs) * 40 + len(ltl_gs) * 3, 'keys': keys}
